@@ -55,6 +55,12 @@ def run(ctx: Ctx):
               ' after the elements produced before it": the blocking batch read'
               ' the server uses never discards a batch in progress (R-C04-11)',
               c04.r11, qmodel(ctx), min_instances=2)
+  from mlmverif.props import c05
+  ctx.include('R-C15-10', '"a generator failure is delivered as that exception ... never'
+              ' leaves a request blocked": the prefetch thread is started with its'
+              ' outcome dropped, so the producer entry itself records every failure of'
+              ' the generator object, including a failing __iter__ (R-C05-10)',
+              c05.r10, qmodel(ctx), min_instances=2)
 
 
 def _c04_shared(sub, m):
